@@ -224,8 +224,12 @@ def lattice(tier):
         delays = (0, 1, 2)
         two = [(nw, n1, n2) for nw in (2, 3) for n1 in (1, 2, 3) for n2 in (1, 2, 3)]
     for nw, n in single:
-        for f in failsets(n, maxfail):
-            for d in delays:
+        # the execution count grows by ~5x per extra task and ~2x per extra feeder delay
+        # (measured: 3 workers, 5 tasks, 2 delays = 138k executions per cell): calls with more
+        # than 4 tasks are explored with single failures and at most one feeder delay
+        big = n > 4
+        for f in failsets(n, 1 if big else maxfail):
+            for d in (delays[:2] if big else delays):
                 cells.append((nw, [(n, list(f))], d))
     for nw, n1, n2 in two:
         for f1 in failsets(n1, 1):
@@ -237,7 +241,7 @@ def lattice(tier):
 
 def run(ctx):
     cells = lattice(ctx.tier)
-    cap = int(os.environ.get("VERIF_C13_CAP", 0)) or (60000 if ctx.tier == "quick" else 1500000)
+    cap = int(os.environ.get("VERIF_C13_CAP", 0)) or (60000 if ctx.tier == "quick" else 400000)
     order = list(range(len(cells)))
     # the seed only permutes the work order; the explored set is identical
     k = ctx.seed % max(1, len(order))
